@@ -158,7 +158,7 @@ fn end(what: &str, id0: u32, tolerated: &[u32], max_leaked_blocks: usize) -> R {
     if shadow::active() {
         if let Some(x) = shadow::take_findings().first() {
             return viol(
-                "C07,C01",
+                "C07,C01,C05",
                 "faults",
                 format!("{}: allocator monitor: {:?}", what, x),
             );
